@@ -842,3 +842,8 @@ CORPUS += [
 CORPUS += [
     V("C18", "cvrp-demand-sampler-unused", R + "cvrp/generator.py", "        demand = self.demand_sampler.sample((*batch_size, self.num_loc))", "        demand = torch.rand(*batch_size, self.num_loc) * 9", "C18.b"),
 ]
+
+CORPUS += [
+    V("C16", "a2c-critic-not-optimised", "rl4co/models/rl/a2c/a2c.py", '        ] + [{"params": self.baseline.parameters(), **self.critic_optimizer_kwargs}]\n', "        ]\n", "C16.b"),
+    V("C16", "a2c-no-critic-baseline", "rl4co/models/rl/a2c/a2c.py", "baseline=CriticBaseline(critic)", 'baseline="no"', "C16.b"),
+]
